@@ -96,6 +96,43 @@ def cache_flow(ctx: Ctx) -> RuleResult:
         if r.findings:
             return r
         r.require(sinks >= 2, f"only {sinks} executor entry points consume the merged results (expected sync and async)")
+        # 3. inside every run_subgraph the supplied results (when there are any) are what the scheduler starts from
+        from .ref import _if_chains
+
+        for rs in [g for g in ctx.funcs() if g.name == "run_subgraph" and g.cls is not None]:
+            pr = rs.node.args.args[2].arg
+            chains = _if_chains(rs.node)
+            sched = [c for c, q in ctx.calls_in(rs) if (dotted(c.func) or "").split(".")[-1] in ("sync_execute", "async_execute")]
+            r.require(len(sched) == 1, f"{rs.short}: scheduler entry not found")
+            rv = next((k.value for k in sched[0].keywords if k.arg == "results"), None)
+            if not isinstance(rv, ast.Name):
+                raise Undecided(f"{rs.short}: results argument of the scheduler is not a name")
+            defs = [d for d in ctx.reaching_defs(rs, rv.id, sched[0]) if isinstance(d, ast.Assign)]
+            if rv.id == pr and ctx.entry_reaches(rs, pr, sched[0]) and not defs:
+                r.ob(True, {"in": rs.short, "scheduler starts from": pr})
+                continue
+            uses_param = False
+            for d in defs:
+                srcs = {x.id for x in ast.walk(d.value) if isinstance(x, ast.Name)}
+                tests = [(norm_src(t), v) for t, v in chains.get(id(d), ())]
+
+                def _is_none_arm(t: ast.AST, v: bool) -> bool:
+                    while isinstance(t, ast.UnaryOp) and isinstance(t.op, ast.Not):
+                        t, v = t.operand, not v
+                    return isinstance(t, ast.Compare) and len(t.ops) == 1 and dotted(t.left) == pr and isinstance(t.comparators[0], ast.Constant) \
+                        and t.comparators[0].value is None and ((isinstance(t.ops[0], ast.Is) and v) or (isinstance(t.ops[0], ast.IsNot) and not v))
+                none_arm = any(_is_none_arm(t, v) for t, v in chains.get(id(d), ()))
+                if pr in srcs:
+                    uses_param = True
+                    r.ob(True, {"in": rs.short, "scheduler starts from": norm_src(d.value)[:70]})
+                elif not none_arm:
+                    r.ob(False, {"in": rs.short, "scheduler starts from": norm_src(d.value)[:70], "under": tests})
+                    r.violate(f"{rs.short}: with results supplied by the caller the scheduler still starts from {norm_src(d.value)[:50]}",
+                              rs.loc(d), "the cached entries merged by the executor are dropped in this flavour: every cached node is executed again",
+                              norm_src(d))
+            if not uses_param and not r.findings:
+                r.violate(f"{rs.short}: the results supplied by the caller never reach the scheduler", rs.loc(sched[0]),
+                          "the cached entries are dropped: every cached node is executed again", norm_src(sched[0])[:100])
     else:
         raise Undecided(f"merged map is an attribute ({M}); flow through attributes is not modelled")
     return r
